@@ -13,17 +13,36 @@ def items(dump):
     return dump[len("OK 0 L["):-1]
 
 
+def truncations(r, cand, limit):
+    """near-miss texts: generated statements with their last 1–3 words cut off (quote- and comment-free statements only, so that the cut never opens a
+    literal or a comment that would swallow the separator).  Most are rejected on their own and drop out of the pool; the ones the implementation ACCEPTS
+    on their own are exactly the texts whose end is decided by 'nothing follows', the decision a separator must not change"""
+    out = []
+    plain = [c for c in cand if "#" not in c and "--" not in c and "/*" not in c]
+    for c in plain:
+        words = c.split(" ")
+        for k in (1, 2, 3):
+            t = " ".join(words[:-k])
+            if len(words) > k + 1 and len(out) < limit * 6 and all(t.count(q) % 2 == 0 for q in "'\"`") and t.count("(") == t.count(")"):
+                out.append(t)
+    r.shuffle(out)
+    return list(dict.fromkeys(out))[:limit]
+
+
 def run(ctx):
     n = 1200 if ctx.quick else 30000
     ctx.cov["rule"] = ("sequences (length 1–6, all kinds mixed) of generated statements that each parse on their own and do not end in a semicolon, plus fixed statements with "
-                       "semicolons inside strings / names / comments / brackets, joined with %d separator layouts, with and without a final semicolon, per dialect; "
+                       "semicolons inside strings / names / comments / brackets, plus the same statements with their last 1–3 words cut off (kept when they parse on their own), joined with %d separator layouts, with and without a final semicolon, per dialect; "
                        "correspondence on every stand-alone parse and every script; oracle: the script's statement list equals the concatenation of the stand-alone lists. "
                        "distinct_nontrivial = distinct accepted scripts" % len(SEPS))
     r = ctx.rng.fork("c10")
     pool = {}
     for d in ("MYSQL", "HIVE", "DEFAULT", "DB2"):
         cand = [sqlgen.Gen(r, d, wild=False).stmt() for _ in range(n // 2)] + TRICKY
+        g = sqlgen.Gen(r, d, wild=False)
+        cand += [g.alter() for _ in range(n // 6)] + [g.create_table() for _ in range(n // 12)]
         cand = [c for c in cand if not c.rstrip().endswith(";")]
+        cand += truncations(r, cand, n // 2)
         ans = [x[1] for x in ctx.corr([pfam.req_parse(d, c) for c in cand], stream="stand-alone")[0]]
         pool[d] = [(c, a) for c, a in zip(cand, ans) if a.startswith("OK 0 L[") and a != "OK 0 L[]"]
     scripts = []
